@@ -21,7 +21,7 @@ vars == <<l, ch>>
 E == Rec[l]
 Key == <<E.pid, E.chan>>
 Fresh == [pending |-> 0, open |-> TRUE, inb |-> FALSE, nf |-> 0, nt |-> 0,
-          taken |-> 0, rem |-> 0, curNf |-> 0, phase |-> "idle", exited |-> FALSE]
+          taken |-> 0, rem |-> 0, curNf |-> 0, phase |-> "idle", exited |-> FALSE, sd |-> FALSE, rd |-> FALSE]
 St == IF Key \in DOMAIN ch THEN ch[Key] ELSE Fresh
 Set(s) == ch' = (Key :> s) @@ ch
 IsEv(k) == l <= Len(Rec) /\ E.kind = k /\ l' = l + 1
@@ -106,7 +106,12 @@ ExecReturn ==
 
 DropEnd ==
     /\ l <= Len(Rec) /\ E.kind \in {"drop_sender_end", "drop_receiver_end"} /\ l' = l + 1
-    /\ Set([St EXCEPT !.open = FALSE])
+    \* The channel key is the address of the shared state.  Once BOTH handles have finished dropping (a Sender is
+    \* not Clone, the drop hooks fire before the Arc field is released) the allocation is freed and a later channel
+    \* of the same process may get the same address: the key is retired, the next event under it starts afresh.
+    \* (Seen as an intermittent false alarm: a try_send with pending = 1 "on" a channel that had already exited.)
+    /\ LET s == [St EXCEPT !.open = FALSE, !.sd = @ \/ E.kind = "drop_sender_end", !.rd = @ \/ E.kind = "drop_receiver_end"]
+       IN IF s.sd /\ s.rd THEN Set(Fresh) ELSE Set(s)
 
 \* events that carry no state of a channel
 Other ==
